@@ -10,10 +10,10 @@ from vf import gen, probes
 PID = "C02"
 ANCHORS = ["pyoma2.functions.gen:merge_mode_shapes", "pyoma2.functions.gen:MSF", "pyoma2.functions.gen:flatten_sns_names",
            "pyoma2.setup.multi:MultiSetup_PoSER.merge_results", "pyoma2.setup.multi:MultiSetup_PoSER._init_setups"]
-REQUIRED_MONITORS = ["merge-is-repeatable", "merge@function", "merge@PoSER.synthetic", "merge@PoSER.ssi", "stats@PoSER", "roworder@flatten"]
+REQUIRED_MONITORS = ["merge-is-repeatable", "merge@function", "merge@PoSER.synthetic", "merge@PoSER.ssi", "stats@PoSER", "roworder@flatten", "two-campaigns", "names@PoSER.def_geo1"]
 ALL_STATES = ["factors:generic", "factors:+-1 only", "entries:real", "entries:complex", "rov:some setup has none",
               "refs:permuted differently per setup", "nref=1", "nref>1"]
-REQUIRED_STATES = ["factors:generic", "entries:complex", "refs:permuted differently per setup", "global shapes of magnitude < 1e-3", "result object replaced after construction", "two modes with the same frequency"]
+REQUIRED_STATES = ["factors:generic", "entries:complex", "refs:permuted differently per setup", "global shapes of magnitude < 1e-3", "result object replaced after construction", "two modes with the same frequency", "geometry names from setups of different channel counts"]
 RULE = ("global matrices G (1..8 modes, real/complex), 2..5 setups, 1..4 references, 0..5 roving per setup, channel lists randomly "
         "permuted per setup, factors +-[0.05,20] per setup and mode; merged result compared with c_1k*[G_ref;G_rov1;...] (rel 1e-10), "
         "row order with flatten_sns_names; PoSER statistics with statistics.pstdev; non-trivial = at least one factor ratio "
@@ -198,6 +198,34 @@ def run_synth(ctx, rng):
     again = {k: probes.digest(v) for k, v in ms.merge_results().items()}
     other = {k: probes.digest(v) for k, v in MultiSetup_PoSER(ref_ind=[list(r) for r in reflist], single_setups=setups, names=names).merge_results().items()}
     ctx.check(first == again == other, "poser:second_merge_differs", "merging the same setups a second time gives a different result")
+    # history: ANOTHER campaign merged in the same process (same group names, other values) leaves this one's merged result alone
+    import copy as _copy
+    setups_b = _copy.deepcopy(setups)
+    for ss_b in setups_b:
+        for a_b in ss_b.algorithms.values():
+            a_b.result.Fn = np.asarray(a_b.result.Fn) * 1.5
+            a_b.result.Phi = np.asarray(a_b.result.Phi)[:, ::-1] * 2.0
+    ms_b = MultiSetup_PoSER(ref_ind=[list(r) for r in reflist], single_setups=setups_b, names=names)
+    res_b = ms_b.merge_results()
+    ctx.ev("two-campaigns")
+    ctx.check({k: probes.digest(v) for k, v in ms.result.items()} == first and {k: probes.digest(v) for k, v in res.items()} == first,
+              "poser:merged_result_changed_by_another_campaign", "merging a second PoSER object changed the merged result held / returned by the first one")
+    ctx.check(all(np.allclose(res_b[nm].Fn, 1.5 * np.asarray(res[nm].Fn)) for nm in names) and res_b is not res, "poser:second_campaign_result", "second campaign: merged Fn is not its own")
+    # the class's geometry takes the names in the order of the merged rows, whatever form the names have (ragged table included)
+    import pandas as pd
+    names_ch = [[("R%d" % g if g < nref else "dof%d" % g) for g in cg] for cg in chan_glob]
+    exp_names = [f"REF{j+1}" for j in range(nref)] + [f"dof{g}" for g in expected_rows(nref, chan_glob, reflist)[nref:]]
+    width = max(len(c) for c in names_ch)
+    forms = [[list(c) for c in names_ch],
+             pd.DataFrame([c + [np.nan] * (width - len(c)) for c in names_ch], index=pd.Index(range(1, nset + 1), name="setup No."), columns=[f"chann. {i+1}" for i in range(width)])]
+    coords = pd.DataFrame(rng.integers(-5, 6, (len(exp_names), 3)).astype(float), index=exp_names, columns=["x", "y", "z"])
+    for form in forms:
+        ms.def_geo1(_copy.deepcopy(form), coords.copy(), np.ones((len(exp_names), 3)))
+        ctx.ev("names@PoSER.def_geo1")
+        ctx.check(list(ms.geo1.sens_names) == exp_names, "poser:geometry_names_not_in_merged_row_order",
+                  lambda: f"MultiSetup_PoSER.def_geo1 (names as {type(form).__name__}): sens_names {list(ms.geo1.sens_names)}, merged rows are {exp_names}")
+    if len({len(c) for c in names_ch}) > 1:
+        ctx.state("geometry names from setups of different channel counts")
     for a, nm in enumerate(names):
         if nm not in res:
             continue
